@@ -13,9 +13,9 @@ FACTOR = 1.20205
 EARLIEST, LATEST, COMMITTED = -2, -1, -101      # afkak.common.OFFSET_*
 
 
-def make_cfg(name, log, block_n, auto_t, group, max_attempts, reset, sync, max_buf):
+def make_cfg(name, log, block_n, auto_t, group, max_attempts, reset, sync, max_buf, buf0=65536, buf_mx=None):
     return {"name": name, "log": log, "block_n": block_n, "auto_t": auto_t, "group": group, "max_attempts": max_attempts,
-            "reset": reset, "sync": sync, "max_buf": max_buf, "init_delay": 0.1, "max_delay": 0.2}
+            "reset": reset, "sync": sync, "max_buf": max_buf, "init_delay": 0.1, "max_delay": 0.2, "buf0": buf0, "buf_mx": buf_mx}
 
 
 CONFIGS = [
@@ -23,6 +23,8 @@ CONFIGS = [
     make_cfg("nogroup-async-noreset-limit2", [0, 1, 2], 0, False, False, 2, "none", False, 0),
     make_cfg("group-n1-sync-latest", [2, 3, 5], 1, False, True, 3, "latest", True, 2),
     make_cfg("group-n0-tick-async", [0, 1, 2, 3], 0, True, True, 0, "none", False, 1),
+    # buffer growth above 1 MiB (doubling): 1.5 -> 3 -> 6 -> 8 MiB
+    make_cfg("nogroup-sync-bigbuf", [0, 1], 0, False, False, 0, "earliest", True, 3, buf0=3 * 2 ** 19, buf_mx=2 ** 23),
 ]
 
 
@@ -41,16 +43,27 @@ def cfg_constants(cfg):
 
 def buffer_sizes(cfg):
     """the sequence of buffer sizes the documented growth rule produces, computed independently"""
-    b0 = 65536
+    b0 = cfg.get("buf0", 65536)
     steps = cfg["max_buf"]
     if steps == 0:
         return [b0], b0
-    mx = {1: 2 ** 20, 2: 3 * 2 ** 20}[steps]
+    mx = cfg.get("buf_mx") or {1: 2 ** 20, 2: 3 * 2 ** 20}[steps]
     sizes = [b0]
     while sizes[-1] < mx:
         b = sizes[-1]
         sizes.append(min(b * (16 if b <= 2 ** 20 else 2), mx))
+    assert len(sizes) - 1 == steps, (sizes, steps)
     return sizes, mx
+
+
+BAD = -2     # last entry of a fetch window: an entry whose decoding raises (bad CRC, unsupported codec)
+
+
+def bad_tail_iter(good):
+    from afkak.common import ChecksumError
+    for m in good:
+        yield m
+    raise ChecksumError("scripted: entry does not decode")
 
 
 class TooSmallIter:
@@ -238,6 +251,8 @@ class ConsumerRun:
             elif a == "FetchDone":
                 if w == [-1]:
                     msgs = TooSmallIter()
+                elif w and w[-1] == BAD:
+                    msgs = bad_tail_iter([C.OffsetAndMessage(o, C.Message(0, 0, None, b"v%d" % o)) for o in w[:-1]])
                 else:
                     msgs = iter([C.OffsetAndMessage(o, C.Message(0, 0, None, b"v%d" % o)) for o in w])
                 self._pend("fetch").callback([C.FetchResponse("t", 0, 0, 100, msgs)])
@@ -315,6 +330,8 @@ def random_run(cfg, seed, length):
         win = pre + after[:k]
         if rng.random() < 0.12:
             win = [-1]
+        elif rng.random() < 0.1 and run.consumer._msg_block_d is None:
+            win = win + [BAD]
         add(8, "FetchDone", 0, win)
         add(1.5, "FetchErr", 0, None, rng.choice(["range", "kafka", "kafka"]))
         add(6, "ProcDone", 1 if rng.random() < 0.85 else 0)
